@@ -514,7 +514,32 @@ func c08ParseString(r *Run, s string) {
 // ---------------------------------------------------------------------------
 // locators
 
-var c08Keys = []string{"gene", "CDS", "exon", "misc_feature", "source"}
+// 5'UTR and 3'UTR are INSDC feature keys that start with a number (known finding K8A)
+var c08Keys = []string{"gene", "CDS", "exon", "misc_feature", "source", "5'UTR", "3'UTR"}
+
+// isK8A: the shape of known finding K8A — the specifier is not a modifier and
+// tryLocation accepts a proper prefix of it (here: selectors that start with a number).
+func isK8A(spec string) bool {
+	if _, err := gts.AsModifier(spec); err == nil {
+		return false
+	}
+	l, ok := gts.VerifTryLocation(spec)
+	return ok && l.String() != spec
+}
+
+// withUTRKeys renames some features to 5'UTR / 3'UTR so that selectors on those keys have
+// something to select.
+func withUTRKeys(r *rng, seq gts.Sequence) gts.Sequence {
+	ff := make(gts.FeatureSlice, len(seq.Features()))
+	copy(ff, seq.Features())
+	for i := range ff {
+		if r.intn(3) == 0 {
+			ff[i].Key = []string{"5'UTR", "3'UTR"}[r.intn(2)]
+		}
+	}
+	return gts.New(nil, ff, append([]byte(nil), seq.Bytes()...))
+}
+
 var c08Names = []string{"gene", "note", "product", "locus_tag"}
 var c08Lits = []string{"a", "b", "x", "y", "thr", "x y", "L"}
 
@@ -694,8 +719,14 @@ func c08Locator(r *Run, spec c08Spec, m gts.Modifier, seq gts.Sequence) {
 		}
 	}
 	if w := encRegs(want); out != w {
-		r.fail(Failure{Oracle: "X@M denotes the regions of X each resized by M (bare modifier: whole sequence; location: itself; selector: matching features in table order)",
-			Op: line, Got: out, Want: w})
+		f := Failure{Oracle: "X@M denotes the regions of X each resized by M (bare modifier: whole sequence; location: itself; selector: matching features in table order)",
+			Op: line, Got: out, Want: w}
+		// known finding K8A: same shape and same misbehaviour (the numeric prefix read as a location)
+		if spec.kind == "selector" && isK8A(spec.text) && out == encRegs(locatorKind(s, true).apply(copySeq(seq))) {
+			f.Finding = "K8A"
+			r.count("locator/K8A")
+		}
+		r.fail(f)
 	}
 }
 
@@ -913,6 +944,9 @@ func propC08(r *Run) {
 	for t := 0; t < nLoc; t++ {
 		L := r.rangeL()
 		seq := genSeq(r.rng, L, 5, 2)
+		if t%3 == 0 {
+			seq = withUTRKeys(r.rng, seq)
+		}
 		spec := genSpec(r.rng, L)
 		var m gts.Modifier
 		if r.rng.intn(3) != 0 || spec.kind == "none" {
